@@ -22,7 +22,7 @@ Print Assumptions C10_decode_encode.
 (* the hypotheses are satisfiable on a state with BLK / CHG / REP / DELETED blocks, a hole, bad / rehash / just-synced
    marks, names with newline, colon, bytes >= 0x80, 64 bit extremes, a multi-file parity, a map of an empty disk *)
 Example C10_wf_satisfiable : wf ex_state /\ 8 <= T0 + 3.
-Proof. split; [exact ex_wf|vm_compute; discriminate]. Qed.
+Proof. exact (conj ex_wf (proj1 ex_clock_ok)). Qed.
 Example C10_example_computed : decode (conf_of ex_state) (encode (T0 + 3) ex_state) = Ok (normalise (T0 + 3) ex_state).
 Proof. exact ex_roundtrip_computed. Qed.
 Example C10_example_effect :
@@ -59,7 +59,7 @@ Proof. exact rewrite_fixpoint_partial. Qed.
 Print Assumptions C10_rewrite_fixpoint_partial.
 Example C10_rewrite_fixpoint_example :
   wf (normalise (T0 + 3) ex_state) /\ normalise (T0 + 3) (normalise (T0 + 3) ex_state) = normalise (T0 + 3) ex_state.
-Proof. split; [exact ex_wf_normalised|exact ex_idempotent]. Qed.
+Proof. exact (conj ex_wf_normalised ex_idempotent). Qed.
 
 (* 4. FINDING.  "Rewriting a content file produced by the tool reproduces it byte for byte" is FALSE for a file saved at a
       clock behind one of its info times: the stored time is clamped to the clock, the reloaded one is the clamped time
@@ -84,14 +84,8 @@ Print Assumptions C10_rewrite_reproduces_partial.
 (* ... hence: loading a file written by the tool and saving it again at the same clock gives the same bytes *)
 Theorem C10_rewrite_byte_identical : forall now s, wf s -> 8 <= now -> unclamped now s ->
   exists s', decode (conf_of s) (encode now s) = Ok s' /\ encode now s' = encode now s.
-Proof.
-  intros now s W Hnow Hu. exists (normalise now s). split; [apply decode_encode_rt; assumption|apply rewrite_reproduces_unclamped; assumption].
-Qed.
+Proof. exact rewrite_byte_identical. Qed.
 Print Assumptions C10_rewrite_byte_identical.
 
 Example C10_unclamped_satisfiable : wf ex_state /\ 8 <= T0 + 100 /\ unclamped (T0 + 100) ex_state.
-Proof.
-  split; [exact ex_wf|]. split; [vm_compute; discriminate|].
-  unfold unclamped. assert (E : pinfo ex_state = [T0 + 4; T0 + 8 + 1; T0 - 80 + 2; 0]) by (vm_compute; reflexivity).
-  rewrite E. repeat constructor; intros _; vm_compute; split; discriminate.
-Qed.
+Proof. exact (conj ex_wf (conj (proj2 ex_clock_ok) ex_unclamped)). Qed.
